@@ -2,7 +2,7 @@ SPEC = dict(
     props_file="Props/C01.v",
     level="proof",
     observers=[dict(cmd="obs_pipe", imports=["Model.Pipe"], case_type="Pipe.case", check="Pipe.check_case", shard=8,
-                    n={"quick": 100, "thorough": 3000}, timeout={"quick": 900, "thorough": 5400})],
+                    n={"quick": 80, "thorough": 3000}, timeout={"quick": 900, "thorough": 5400})],
     rule="each case = one configuration (ring / flow-buffer queue, RESP3 / RESP2, PipelineMultiplex, RingScaleEachConn 1-3 or "
          "default, AlwaysPipelining / DisableAutoPipelining, MaxFlushDelay, cache on/off) x 2-32 goroutines issuing tagged ECHO / GET / "
          "batches / cached reads / subscribe / unsubscribe with live, cancelled, expiring and already-done contexts, pushes injected "
